@@ -266,7 +266,8 @@ pub fn judge_real(
         if so.contains("Note: including file:") {
             rep.violation("showincludes-line-shown", "a `Note: including file:` line reached the user", mk());
         }
-        for s in proj_before.steps.iter().filter(|s| s.msvc && started_set.contains(&s.id)) {
+        // (only when n2 processed every completion: after a failed build, commands still running are orphans)
+        for s in proj_before.steps.iter().filter(|s| s.msvc && ok_set.contains(&s.id) && exit == Some(0)) {
             if !so.contains(&format!("{}: compiling", s.id)) {
                 rep.violation("output-line-lost", &format!("ordinary output line of {} missing from n2's output", s.id), mk());
             }
